@@ -465,8 +465,29 @@ pub fn c15(run: &mut Run) {
         return;
     }
     let t0 = std::time::Instant::now();
-    let batches = if run.tier == Tier::Quick { 1 } else { 16 };
+    let batches = if run.tier == Tier::Quick { 8 } else { 240 };
     let per = 300usize;
+    let seed = run.seed;
+    let muts_of = |cases: &[C15Case]| -> Vec<Mutant> {
+        let mut muts = vec![];
+        for (i, c) in cases.iter().enumerate().take(120) {
+            for m in mutants(&c.sentences[0], (i as u16).wrapping_mul(31)) {
+                muts.push(m);
+            }
+        }
+        muts
+    };
+    let mut results = par_batches(
+        batches,
+        slots_for(batches),
+        |b, slot| {
+            let cases = generate(&c15_strategy(), seed, &format!("c15-{b}"), per);
+            let pos = run_positive(&cases, &format!("c15-pos-{b}"), slot);
+            let neg = run_negative(&muts_of(&cases), &format!("c15-neg-{b}"), slot);
+            (pos, neg)
+        },
+        |r| any_not_ok(&r.0) || any_not_ok(&r.1),
+    );
     let mut all_cases = 0u64;
     let mut nontriv = std::collections::HashSet::new();
     let mut samples = vec![];
@@ -519,21 +540,15 @@ pub fn c15(run: &mut Run) {
             }
         }
         all_cases += cases.len() as u64;
-        let v = run_positive(&cases, &format!("c15-pos-{b}"), 0);
-        report(run, "c15_compiled", v);
+        let Some((pos, neg)) = results[b].take() else { break };
+        report(run, "c15_compiled", pos);
         // negative batch: mutants of the first sentences of this batch
-        let mut muts = vec![];
-        for (i, c) in cases.iter().enumerate().take(120) {
-            for m in mutants(&c.sentences[0], (i as u16).wrapping_mul(31)) {
-                muts.push(m);
-            }
-        }
+        let muts = muts_of(&cases);
         for m in &muts {
             *neg_kinds.entry(m.kind.clone()).or_default() += 1;
         }
         neg_total += muts.len() as u64;
-        let v = run_negative(&muts, &format!("c15-neg-{b}"), 0);
-        report(run, "c15_rejection", v);
+        report(run, "c15_rejection", neg);
         if run.violation_count() > 0 {
             break;
         }
